@@ -116,6 +116,63 @@ func rGenExpiry(t *rapid.T, prof string, unitHint int, st *vStat) (E, EF int) {
 	}
 }
 
+// rLongBoundaryMs: millisecond values around the hand-over between the timer structures (the millisecond wheel has
+// MILLISECOND_QUEUE_LENGTH = 3000 slots; longer periods are handed to the second wheel in whole seconds) and around the top
+// of the uint16 range of the field (value + 999 wraps from 64537 on).
+var rLongBoundaryMs = []int{2999, 3000, 3001, 5999, 6000, 30000, 64535, 64536, 64537, 65000, 65535}
+
+// rGenLongValue: a period that is (mostly) far longer than a case. flagMs / flagMin are the unit bits (same values in
+// TimeoutFlag and ExpriedFlag).
+func rGenLongValue(t *rapid.T, allowMs bool) (v, flag int) {
+	// ms boundary | ms top of the range | ms anywhere >= 3000 | 65535 s | s anywhere | minutes
+	w := []int{50, 15, 10, 8, 7, 10}
+	if !allowMs {
+		w[0], w[1], w[2] = 0, 0, 0
+	}
+	switch rGenDur(t, "long-kind", w) {
+	case 0:
+		return rapid.SampledFrom(rLongBoundaryMs).Draw(t, "long-ms"), rTFms
+	case 1:
+		return rapid.IntRange(64000, 65535).Draw(t, "long-ms"), rTFms
+	case 2:
+		return rapid.IntRange(3000, 65535).Draw(t, "long-ms"), rTFms
+	case 3:
+		return 65535, 0
+	case 4:
+		return rapid.IntRange(5, 65535).Draw(t, "long-s"), 0
+	default:
+		return rapid.SampledFrom([]int{1, 2, 1092, 1093, 65535}).Draw(t, "long-min"), rTFmin
+	}
+}
+
+// rGenLongBlock: requests that really have to wait (behind a holder with unlimited expiry, on a key of their own) and
+// holds that are watched for the rest of the case (on another key of their own), with periods from rGenLongValue. They
+// come first in the script so that their watch window (rWatchMs) lies inside the case.
+func rGenLongBlock(t *rapid.T, c *rCase, prof string) {
+	w := []int{45, 40, 10, 5} // none | waiters | holds | both
+	if prof == "C06" {
+		w = []int{45, 10, 40, 5}
+	}
+	kind := rGenDur(t, "long-block", w)
+	if kind == 1 || kind == 3 {
+		c.Script = append(c.Script, rStep{K: "lock", C: 0, Key: 2, Id: 32, E: 1, EF: rEFunlimited})
+		n := rapid.IntRange(1, 3).Draw(t, "long-waiters")
+		for i := 0; i < n; i++ {
+			s := rStep{K: "lock", C: rapid.IntRange(0, c.NClients-1).Draw(t, "client"), Key: 2, Id: 33 + i, E: 1}
+			s.T, s.TF = rGenLongValue(t, !vIsKnown(rKeyTimeoutOver3))
+			c.Script = append(c.Script, s)
+		}
+	}
+	if kind == 2 || kind == 3 {
+		n := rapid.IntRange(1, 3).Draw(t, "long-holds")
+		for i := 0; i < n; i++ {
+			s := rStep{K: "lock", C: rapid.IntRange(0, c.NClients-1).Draw(t, "client"), Key: 3, Id: 48 + i, Cnt: 2}
+			s.E, s.EF = rGenLongValue(t, !vIsKnown(rKeyExpOver3s))
+			c.Script = append(c.Script, s)
+		}
+	}
+}
+
 func rGenCase(t *rapid.T, prof string, st *vStat) *rCase {
 	c := &rCase{Engine: "R", Profile: prof}
 	c.DbConc = rapid.SampledFrom([]int{1, 2, 4}).Draw(t, "dbconc")
@@ -149,6 +206,7 @@ func rGenCase(t *rapid.T, prof string, st *vStat) *rCase {
 	if knownRestartUnit {
 		st.Exclude("re-lock/update keeps the unit of the hold's current terms (known finding " + rKeyRestartUnit + ")")
 	}
+	rGenLongBlock(t, c, prof)
 	// step kinds: lock-new | relock/update | unlock | sleep
 	w := []int{45, 6, 14, 35}
 	if prof == "C06" {
@@ -327,6 +385,7 @@ func rClasses(o rOutcome, prop string) (bool, []string) {
 	add(in.staleSets > 0, "server's sampled clock was stale when a period started (bound relaxed by the measured staleness)")
 	add(in.wakeChecked > 0, "wake-up after an expiry that emptied the key was judged")
 	add(in.wakeSlow > 0, "wake-up after an expiry came later than the slack after the notice (no bound claimed)")
+	add(in.longWatched > 0, "period far longer than the case (boundary values up to 65535 ms/s/min) watched through its hand-over window, unanswered as it must be")
 	add(in.capacityChecked > 0, "a grant was checked against holds that cannot have ended")
 	add(in.ignorableUpdates > 0, "update moved the deadline by at most one unit (either outcome accepted)")
 	add(in.unitChanges > 0, "re-lock/update changed the unit of the expiry")
